@@ -43,6 +43,10 @@ const (
 	AckSync  AckMode = iota // inside the inner call (MemoryBackend default)
 	AckLate                 // after the inner call returned, from another goroutine
 	AckNever                // never
+	// AckInNext: the acknowledgement of a message is held until the backend is
+	// inside the Publish call for the next message, then fired from another
+	// goroutine and awaited before that call goes on (FlushHeld fires the rest)
+	AckInNext
 )
 
 // HookFault makes the K-th call (1-based, counted per hook name over the
@@ -67,6 +71,11 @@ type MonBackend struct {
 	OnHook func(hook, phase string, c *broker.Client)
 	// OnSetupReturn is called after the inner Setup returned successfully.
 	OnSetupReturn func(ci *ClientInfo)
+	// SlowPublishTopic/SlowPublishDelay: Publish calls for that topic pause before
+	// they reach the inner backend (widens the window between a received PUBREL
+	// and the backend's acknowledgement).
+	SlowPublishTopic string
+	SlowPublishDelay time.Duration
 	// SlowTerminate delays Terminate (KillTimeout scenarios).
 	SlowTerminate time.Duration
 	// LateGate, when set, holds every late acknowledgement until it is closed.
@@ -85,6 +94,9 @@ type MonBackend struct {
 	lateN   int
 	// AckInvoked records (client, packet id unknown here) -> seq of ack invocation, in order
 	Acks []AckEvent
+
+	heldMu sync.Mutex
+	held   []func() // AckInNext: acknowledgements waiting for the next Publish call
 }
 
 // AckEvent records the invocation of a Publish ack closure.
@@ -170,6 +182,21 @@ func (m *MonBackend) WaitLate() {
 		}
 		time.Sleep(50 * time.Microsecond)
 	}
+}
+
+// FlushHeld fires the acknowledgements held in AckInNext mode, each from its
+// own goroutine, and waits until they have returned.
+func (m *MonBackend) FlushHeld() {
+	m.heldMu.Lock()
+	hs := m.held
+	m.held = nil
+	m.heldMu.Unlock()
+	var wg sync.WaitGroup
+	for _, f := range hs {
+		wg.Add(1)
+		go func(f func()) { defer wg.Done(); f() }(f)
+	}
+	wg.Wait()
 }
 
 func (m *MonBackend) lateAdd(d int) {
@@ -392,7 +419,19 @@ func (m *MonBackend) Publish(c *broker.Client, msg *packet.Message, ack broker.A
 			}()
 		case AckNever:
 			wrapped = func() {}
+		case AckInNext:
+			wrapped = func() {
+				m.heldMu.Lock()
+				m.held = append(m.held, logged)
+				m.heldMu.Unlock()
+			}
 		}
+	}
+	if m.AckMode == AckInNext {
+		m.FlushHeld() // acknowledgements of earlier messages arrive while this call is in progress
+	}
+	if m.SlowPublishDelay > 0 && cp.Topic == m.SlowPublishTopic {
+		time.Sleep(m.SlowPublishDelay)
 	}
 	err := m.Inner.Publish(c, msg, wrapped)
 	if err == nil && a != nil {
